@@ -383,6 +383,17 @@ def write_replay(prop, idx, payload):
     return p
 
 
+def generic_replay(prop, path, run):
+    """Replay for the engines whose cases are fully determined by (tier, seed): the replay file records both, every
+    generator is a pure function of them, so the check is re-run with exactly those inputs on the current tree and
+    reports whether the recorded failing case fails again."""
+    d = json.load(open(path))
+    tier, seed = d.get("tier", "quick"), int(d.get("seed", 1))
+    print("REPLAY property=%s: re-running tier=%s seed=%d (deterministic generation reproduces the recorded inputs); recorded: %s"
+          % (prop, tier, seed, str(d.get("description") or d.get("kind"))[:300]))
+    return run(tier, seed)
+
+
 def finish(o, search=None, level="proof"):
     """Prints verdict lines, writes evidence, returns exit code."""
     known = [k for k in load_known() if k.get("property") == o.prop and k.get("status") == "known"]
